@@ -639,6 +639,11 @@ struct V : RecursiveASTVisitor<V> {
           bo["termstmt"] = Em.ref(T);
           if (auto *Cn = B->getTerminatorCondition()) bo["cond"] = Em.ref(Cn);
         }
+        if (auto *L = B->getLabel()) {
+          // case / default label that starts this block (targets of a switch)
+          if (auto *CS = dyn_cast<CaseStmt>(L)) { bo["label"] = "case"; bo["labelv"] = Em.ref(CS->getLHS()); if (CS->getRHS()) bo["labelrange"] = true; }
+          else if (isa<DefaultStmt>(L)) bo["label"] = "default";
+        }
         bo["noreturn"] = B->hasNoReturnElement();
         json::Array su;
         for (auto &S : B->succs()) {
